@@ -12,7 +12,8 @@ use std::sync::atomic::{AtomicU64, Ordering};
 
 pub fn run_tables(rep: &Report, tier: Tier) {
     let gaps: Vec<usize> = (0..=8).collect();
-    let limits: Vec<f32> = vec![0.5, 1.0, 2.0];
+    // an infinite limit is a valid way of saying "gaps up to here are unlimited" (and still covers the smaller gaps)
+    let limits: Vec<f32> = vec![0.5, 1.0, 2.0, f32::INFINITY];
     let probes_d: Vec<f32> = vec![0.0, 0.25, 0.5, 0.75, 1.0, 1.5, 2.0, 2.5];
     let entries: Vec<(usize, f32)> = gaps.iter().flat_map(|g| limits.iter().map(move |l| (*g, *l))).collect();
     let ne = entries.len();
